@@ -52,6 +52,37 @@ def three_node_failures():
     return out
 
 
+def displaced_wills():
+    """A will-carrying session is displaced by a newer session of the same client identifier (same node / other node); then both
+    end in various ways.  Whether a displaced session's will is published is left open (displacement is not in C13's list) - but
+    never more than once, and the successor's will is published exactly when the successor dies without DISCONNECT."""
+    out = []
+    for n2 in (1, 2):
+        for end2 in ("disconnect", "close", "none"):
+            for ping1 in (True, False):
+                ops = [{"op": "connect", "c": 7, "n": 1, "client": "watch7", "user": "tenant:A", "ka": 60000},
+                       {"op": "sub", "c": 7, "id": 1, "fs": [{"f": ["w", "#"], "q": 1}, {"f": ["w", "same"], "q": 0}]},
+                       {"op": "connect", "c": 6, "n": 2, "client": "watch6", "user": "tenant:A", "ka": 60000},
+                       {"op": "sub", "c": 6, "id": 1, "fs": [{"f": ["w", "+"], "q": 2}]},
+                       {"op": "connect", "c": 1, "n": 1, "client": "same", "user": "tenant:A", "ka": 10,
+                        "will": {"t": ["w", "same"], "p": "will-first", "q": 1, "r": False}},
+                       {"op": "connect", "c": 2, "n": n2, "client": "same", "user": "tenant:A", "ka": 10,
+                        "will": {"t": ["w", "same"], "p": "will-second", "q": 0, "r": False}}]
+                if ping1:
+                    ops.append({"op": "send", "c": 1, "kind": "PINGREQ"})
+                if end2 == "disconnect":
+                    ops.append({"op": "send", "c": 2, "kind": "DISCONNECT"})
+                elif end2 == "close":
+                    ops.append({"op": "close", "c": 2})
+                if not ping1:
+                    ops.append({"op": "send", "c": 1, "kind": "PINGREQ"})
+                if end2 == "none":
+                    ops.append({"op": "send", "c": 2, "kind": "PINGREQ"})
+                ops.append({"op": "quiesce"})
+                out.append({"nodes": [1, 2], "ops": ops})
+    return out
+
+
 def check(run):
     thorough = run.tier == "thorough"
     run.model_check("MC_Session", "MC_Session_keepalive.cfg")
@@ -78,6 +109,7 @@ def check(run):
         scns.append(sessionlib.build(h, cast(1, 1 + i % 2, i % 3 == 0, [1, 2])))
     t3 = three_node_failures()
     scns += t3
+    scns += displaced_wills()
     run.log("%d will scripts (%d with a node failure on two nodes, %d on three)" % (len(scns), min(len(pf), npf), len(t3)))
     tpath, crashes = brokerlib.execute(run, scns, "c13", shards=14, timeout=3000)
     if crashes:
@@ -92,7 +124,8 @@ def check(run):
         "rule": "scenario = TLC-generated script (depth %d) for a will-carrying session and a second one over connect / subscribe / ping / idle / DISCONNECT / "
                 "close / malformed / long silence / node failure x will QoS 0-2, retained or not, hosted on node 1 or 2 x three watchers (two nodes, two "
                 "tenants; '#', '+', exact, non-matching filters); plus three-node failures in which the two survivors are told in either order, with or "
-                "without gossip delivered in between" % (5 if thorough else 4),
+                "without gossip delivered in between; plus 12 schedules in which a will-carrying session is displaced (same node / other node) and "
+                "both sessions then end in various ways" % (5 if thorough else 4),
         "events_validated": nev, "trace_spec_states": tstates, "rejections": len(rejected),
         "samples": [scns[0]["ops"][7:], scns[-1]["ops"][7:]],
     }, ["displacement by a newer session is not among C13's causes: publishing the will then is allowed, not required",
